@@ -459,6 +459,15 @@ func TestC09(t *testing.T) {
 		if v := c09Judge(c, res); v != "" {
 			rt.Fatalf("C09 violated by %v: %s\noutcome: %v", c, v, res)
 		}
+		if rapid.IntRange(0, 5).Draw(rt, "reuseInstance") == 0 {
+			forceOp = c.op
+			other := c09Gen(rt)
+			forceOp = ""
+			ev.Class("C09", "instance-reused")
+			if d := reuseDifferential(c.op, c.node, []tensor.Tensor{other.x}, []tensor.Tensor{c.x}); d != "" {
+				rt.Fatalf("C09 violated by %v after the same operator instance served %v: %s", c, other, d)
+			}
+		}
 		if rapid.IntRange(0, 4).Draw(rt, "modelLevel") == 0 {
 			mres := runSingleNodeModel(c.node, []tensor.Tensor{cloneT(c.x)}, 1)
 			ev.Class("C09", "model-level")
